@@ -5,7 +5,6 @@ package xcrd
 import (
 	"fmt"
 	"reflect"
-	"strings"
 	"testing"
 
 	extv1 "k8s.io/apiextensions-apiserver/pkg/apis/apiextensions/v1"
@@ -263,7 +262,9 @@ func TestVerifC11ValidateUpdate(t *testing.T) {
 			_, el := upd.XRD.ValidateUpdate(old.XRD)
 			for _, e := range el {
 				errs = append(errs, e.Error())
-				if strings.Contains(e.Detail, "immutable") {
+				// Which names were refused is read from the error's field path, never from its wording.
+				switch e.Field {
+				case "spec.group", "spec.names.kind", "spec.names.plural", "spec.claimNames.kind", "spec.claimNames.plural":
 					fields[e.Field] = true
 				}
 			}
@@ -285,7 +286,7 @@ func TestVerifC11ValidateUpdate(t *testing.T) {
 		}
 		for f := range fields {
 			if !want[f] {
-				t.Fatalf("ValidateUpdate calls %s immutable-and-changed but it did not change\nold: %s\nnew: %s", f, c11gen.JSON(old.XRD), c11gen.JSON(upd.XRD))
+				t.Fatalf("ValidateUpdate refuses %s but it did not change\nold: %s\nnew: %s", f, c11gen.JSON(old.XRD), c11gen.JSON(upd.XRD))
 			}
 		}
 		if len(want) > 0 && len(errs) == 0 {
